@@ -20,7 +20,7 @@
 //@ fn PubPoint::restart
 //@ spec
     ensures
-        // C03: restart drops everything collected so far
+        // C03 + C01 (payload of an abandoned manifest is not validated payload): restart drops everything collected so far
         final(self).fresh(),
         final(self).orig_refresh == old(self).orig_refresh,
         final(self).tal_index == old(self).tal_index, final(self).repository_index == old(self).repository_index,
@@ -137,7 +137,7 @@
 //@ fn PubPointProcessor::restart
 //@ spec
     ensures
-        // C03: the processor holds no payload after a restart
+        // C03 + C01: the processor holds no payload after a restart
         res is Ok, final(self).pub_point.fresh(), final(self).report == old(self).report,
 //@ fn PubPointProcessor::commit
 //@ spec
